@@ -14,6 +14,14 @@ THEOREMS = [
     "Mpc.C14_bristol_never_panics",
     "Mpc.C14_mpclc_panic_witness",
     "Mpc.C14_mpclc_never_panics_partial",
+    "Mpc.C14_mpclc_fuel_adequate",
+    "Mpc.C14_parse_total",
+    "Mpc.C14_type_roundtrip",
+    "Mpc.C14_mpclc_roundtrip_partial",
+    "Mpc.C14_mpclc_roundtrip_fixed",
+    "Mpc.C14_bristol_roundtrip",
+    "Mpc.C14_mpclc_roundtrip_short_read_witness",
+    "Mpc.C14_mpclc_roundtrip_short_reader_witness",
 ]
 
 # outcome classes / branches the generators must reach (measured, per run)
